@@ -68,6 +68,31 @@ Check polydiv_terminates_complex_f64 : forall u v : list ACF,
 Print Assumptions polydiv_terminates_complex_f64.
 Print Assumptions polydiv_zero_divisor_lemma.   (* closed; ends the listing of float primitives above for the driver's parser *)
 
+(* EVERY f64 / Complex<f64> input (NaN, infinities, zero leading coefficient included) is classified: the error value
+   exactly for the empty / all-zero divisor, otherwise Ok(q, r) with r zero or shorter than v -- never a panic, never
+   the iteration cap ("the routine never panics or spins", for dividends of at most MAX coefficients) *)
+Theorem polydiv_f64_outcomes : forall u v : list AF, length u <= POLYDIV_MAX ->
+  ((v = [] \/ is_zero v = true) /\ polydiv u v = Ok (inr EZeroDiv)) \/
+  (v <> [] /\ is_zero v = false /\
+   exists q r, polydiv u v = Ok (inl (q, r)) /\ (is_zero r = true \/ length r < length v)).
+Proof. exact (@polydiv_outcomes AF eq_refl (fun x y => ex_intro _ _ eq_refl)). Qed.
+Check polydiv_f64_outcomes : forall u v : list AF, length u <= POLYDIV_MAX ->
+  ((v = [] \/ is_zero v = true) /\ polydiv u v = Ok (inr EZeroDiv)) \/
+  (v <> [] /\ is_zero v = false /\
+   exists q r, polydiv u v = Ok (inl (q, r)) /\ (is_zero r = true \/ length r < length v)).
+Print Assumptions polydiv_f64_outcomes.
+Print Assumptions polydiv_zero_divisor_lemma.   (* closed; ends the listing of float primitives above for the driver's parser *)
+Theorem polydiv_complex_f64_outcomes : forall u v : list ACF, length u <= POLYDIV_MAX ->
+  ((v = [] \/ is_zero v = true) /\ polydiv u v = Ok (inr EZeroDiv)) \/
+  (v <> [] /\ is_zero v = false /\
+   exists q r, polydiv u v = Ok (inl (q, r)) /\ (is_zero r = true \/ length r < length v)).
+Proof. exact (@polydiv_outcomes ACF eq_refl (fun x y => ex_intro _ _ eq_refl)). Qed.
+Check polydiv_complex_f64_outcomes : forall u v : list ACF, length u <= POLYDIV_MAX ->
+  ((v = [] \/ is_zero v = true) /\ polydiv u v = Ok (inr EZeroDiv)) \/
+  (v <> [] /\ is_zero v = false /\
+   exists q r, polydiv u v = Ok (inl (q, r)) /\ (is_zero r = true \/ length r < length v)).
+Print Assumptions polydiv_complex_f64_outcomes.
+Print Assumptions polydiv_zero_divisor_lemma.   (* closed; ends the listing of float primitives above for the driver's parser *)
 (* whenever the answer is Ok(q, r), r is zero or formally shorter than v -- every arithmetic, no hypothesis *)
 Theorem polydiv_remainder_degree : forall (A : Arith) (u v q r : list A),
   polydiv u v = Ok (inl (q, r)) -> is_zero r = true \/ length r < length v.
